@@ -101,15 +101,13 @@ theorem backtrackQub_tick (P : Problem α) (pr : Params α) (f : Nat) (c : Itera
 
 theorem initState_good (co : Consts α) (P : Problem α) (d0 : D) (pr : Params α) (x0 gV : Vec α)
     (s : St α D) (h : initState co P d0 pr x0 gV = .inr s) :
-    Good P s.curr ∧ (s.fuelOut = false → QubOK pr s.curr) ∧ s.k = 0 := by
+    Good P s.curr ∧ (s.fuelOut = false → QubOK pr s.curr) ∧ s.k = 0 ∧ s.cbs = [] := by
   unfold initState at h
   simp only [] at h
   split_ifs at h
-  all_goals first
-    | (injection h with h; subst h
-       exact ⟨backtrackQub_good P pr _ _ _ _ (good_evalPsiHat P _ (proxCons_evalProxGradStep P _)),
-              fun hf => backtrackQub_qubOK P pr _ _ _ _ hf, rfl⟩)
-    | (exact absurd h (by simp))
+  injection h with h; subst h
+  exact ⟨backtrackQub_good P pr _ _ _ _ (good_evalPsiHat P _ (proxCons_evalProxGradStep P _)),
+         fun hf => backtrackQub_qubOK P pr _ _ _ _ hf, rfl, rfl⟩
 
 /-! ### One iteration -/
 
@@ -344,5 +342,214 @@ theorem mainLoop_exit_at_head (co : Consts α) (P : Problem α) (dir : Direction
       rw [hspec.2.2.1, hh.2.2.1] at h2; omega
     · refine ⟨s, by omega, Nat.le_refl _, hg, hb, ?_⟩
       simp [hb]
+
+/-! ### Reported iterates, acceptance test, tick accounting -/
+
+theorem headStep_cbs (P : Problem α) (pr : Params α) (stop : Nat → Bool) (oot : Bool) (s : St α D) :
+    (headStep P pr stop oot s).1.cbs = s.cbs ∧ (headStep P pr stop oot s).1.accept = s.accept ∧
+    (headStep P pr stop oot s).1.q = s.q ∧ (headStep P pr stop oot s).1.rho = s.rho := by
+  unfold headStep; exact ⟨rfl, rfl, rfl, rfl⟩
+
+/-- The status the head hands on is the generated chain evaluated at this head's `k`, `ε` and the
+    stop flag polled at this head's tick (`no_progress` is the constant 0 in pantr.tpp). -/
+theorem headStep_status (P : Problem α) (pr : Params α) (stop : Nat → Bool) (oot : Bool) (s : St α D) :
+    (headStep P pr stop oot s).2.2 =
+      statusChain pr.tolerance pr.maxIter pr.maxNoProgress (headStep P pr stop oot s).1.k
+        (headStep P pr stop oot s).2.1 0 oot (stop (headStep P pr stop oot s).1.tick) := by
+  unfold headStep statusOf; rfl
+
+/-- The `ε` of a head is the generated criterion of the *current* iterate, with `∇ψ(x̂)` freshly
+    evaluated at `(x̂, ŷ)` whenever the criterion reads it. -/
+theorem headStep_eps (P : Problem α) (pr : Params α) (stop : Nat → Bool) (oot : Bool) (s : St α D) :
+    (headStep P pr stop oot s).2.1 = epsOf P pr s.curr (headStep P pr stop oot s).1.gradPsiHat ∧
+    (requiresGradHat pr.stopCrit = true →
+      (headStep P pr stop oot s).1.gradPsiHat = P.gradL s.curr.xhat s.curr.yhat) := by
+  unfold headStep
+  simp only []
+  refine ⟨by triv, fun h => ?_⟩
+  simp [h]
+
+theorem iterBody_cbs (co : Consts α) (P : Problem α) (dir : Direction D α) (pr : Params α)
+    (s : St α D) (eps : α) :
+    ∃ cb : Callback α, (iterBody co P dir pr s eps).cbs = cb :: s.cbs ∧ cb.it = s.curr ∧
+      cb.k = s.k ∧ cb.status = .Busy ∧ cb.eps = eps := by
+  unfold iterBody
+  simp only []
+  exact ⟨_, rfl, (trStage_spec co P dir pr s).1, rfl, rfl, rfl⟩
+
+/-- **Every iterate handed to the progress callback** (Busy callbacks and the final one) carries a
+    consistent prox step and ŷ, and satisfies the quadratic upper bound unless `L ≥ L_max`. -/
+theorem mainLoop_callbacks (co : Consts α) (P : Problem α) (dir : Direction D α) (pr : Params α)
+    (stop : Nat → Bool) (oot : Bool) (x0 y Sig errz0 : Vec α) (fuel : Nat) (s : St α D)
+    (h : Good P s.curr) (hq : s.fuelOut = false → QubOK pr s.curr)
+    (hc : ∀ cb ∈ s.cbs, Good P cb.it ∧ QubOK pr cb.it)
+    (hr : (mainLoop co P dir pr stop oot x0 y Sig errz0 fuel s).fuelOut = false) :
+    ∀ cb ∈ (mainLoop co P dir pr stop oot x0 y Sig errz0 fuel s).callbacks,
+      Good P cb.it ∧ QubOK pr cb.it := by
+  have hsf : s.fuelOut = false := by
+    cases hf : s.fuelOut
+    · rfl
+    · rw [mainLoop_fuelOut_mono co P dir pr stop oot x0 y Sig errz0 fuel s hf] at hr
+      exact absurd hr (by decide)
+  induction fuel generalizing s with
+  | zero => simp [mainLoop] at hr
+  | succ f ih =>
+    unfold mainLoop at hr ⊢
+    simp only [] at hr ⊢
+    have hh := headStep_same P pr stop oot s
+    have hcb := headStep_cbs P pr stop oot s
+    split_ifs at hr ⊢ with hb
+    · intro cb hmem
+      unfold exitBlock at hmem
+      simp only [List.mem_reverse, List.mem_cons] at hmem
+      rcases hmem with rfl | hmem
+      · simp only [hh.1]; exact ⟨h, hq hsf⟩
+      · rw [hcb.1] at hmem; exact hc cb hmem
+    · have hspec := iterBody_spec co P dir pr (headStep P pr stop oot s).1 (headStep P pr stop oot s).2.1
+      obtain ⟨cb0, hcbs, hit, -, -, -⟩ :=
+        iterBody_cbs co P dir pr (headStep P pr stop oot s).1 (headStep P pr stop oot s).2.1
+      have hf2 : (iterBody co P dir pr (headStep P pr stop oot s).1 (headStep P pr stop oot s).2.1).fuelOut
+          = false := by
+        cases hf : (iterBody co P dir pr (headStep P pr stop oot s).1 (headStep P pr stop oot s).2.1).fuelOut
+        · rfl
+        · rw [mainLoop_fuelOut_mono co P dir pr stop oot x0 y Sig errz0 f _ hf] at hr
+          exact absurd hr (by decide)
+      refine ih _ hspec.1 hspec.2.1 ?_ hr hf2
+      intro cb hmem
+      rw [hcbs, List.mem_cons] at hmem
+      rcases hmem with rfl | hmem
+      · rw [hit, hh.1]; exact ⟨h, hq hsf⟩
+      · rw [hcb.1] at hmem; exact hc cb hmem
+
+/-- An accepted candidate passed the generated ratio test: the model value handed to the ratio is
+    negative and `ρ ≥ ratio_threshold_acceptable`, with `ρ` the generated `pantr_candidateRatio` of
+    `prox` (the forward-backward point `x̂ₖ`) and the candidate as they are at that moment. -/
+theorem trStage_accept_ratio (co : Consts α) (P : Problem α) (dir : Direction D α) (pr : Params α)
+    (s : St α D) (ha : (trStage co P dir pr s).accept = true) :
+    ∃ qModel : α, qModel < 0 ∧
+      (trStage co P dir pr s).rho
+        = candidateRatio pr (trStage co P dir pr s).prox (trStage co P dir pr s).cand qModel ∧
+      (trStage co P dir pr s).rho ≥ pr.ratioThresholdAcceptable ∧
+      (trStage co P dir pr s).Delta
+        = updatedRadius pr (trStage co P dir pr s).q (trStage co P dir pr s).rho s.Delta := by
+  unfold trStage at ha ⊢
+  simp only [] at ha ⊢
+  by_cases h1 : ((dirInit dir s (fbsStep P pr s).1 (fbsStep P pr s).2.2).2.1 && !pr.disableAcceleration) = true
+  · simp only [h1, if_true] at ha ⊢
+    unfold trAttempt at ha ⊢
+    simp only [] at ha ⊢
+    by_cases h2 : (trustRegionStep co dir (dirInit dir s (fbsStep P pr s).1 (fbsStep P pr s).2.2).1
+        (dirInit dir s (fbsStep P pr s).1 (fbsStep P pr s).2.2).2.2 (fbsStep P pr s).1 s.Delta s.q).2.2.2.1 < 0
+    · simp only [h2, if_true] at ha ⊢
+      exact ⟨_, h2, by triv, by simpa using ha, by triv⟩
+    · simp only [h2, if_false] at ha
+      exact absurd ha (by simp)
+  · simp only [h1, if_false] at ha
+    exact absurd ha (by simp)
+
+/-- The trust radius after `trStage` is either unchanged or the generated update floored at
+    `min_radius` by `std::fmax`. -/
+theorem trStage_Delta (co : Consts α) (P : Problem α) (dir : Direction D α) (pr : Params α)
+    (s : St α D) :
+    (trStage co P dir pr s).Delta = s.Delta ∨
+    ∃ q rho, (trStage co P dir pr s).Delta = updatedRadius pr q rho s.Delta := by
+  unfold trStage
+  simp only []
+  split_ifs
+  · unfold trAttempt
+    simp only []
+    split_ifs
+    · exact .inr ⟨_, _, by triv⟩
+    · exact .inl (by triv)
+  · exact .inl (by triv)
+
+theorem iterBody_Delta (co : Consts α) (P : Problem α) (dir : Direction D α) (pr : Params α)
+    (s : St α D) (eps : α) :
+    (iterBody co P dir pr s eps).Delta = (trStage co P dir pr s).Delta ∧
+    (iterBody co P dir pr s eps).accept = (trStage co P dir pr s).accept ∧
+    (iterBody co P dir pr s eps).q = (trStage co P dir pr s).q := by
+  unfold iterBody; exact ⟨rfl, rfl, rfl⟩
+
+/-! #### ticks (events) per stage -/
+
+theorem fbsStep_tick (P : Problem α) (pr : Params α) (s : St α D) :
+    s.tick + 2 ≤ (fbsStep P pr s).2.2 ∧ (fbsStep P pr s).2.2 ≤ s.tick + 3 := by
+  unfold fbsStep; simp only []; split_ifs <;> dsimp only <;> omega
+
+theorem dirInit_tick (dir : Direction D α) (s : St α D) (prox : Iterate α) (t : Nat) :
+    t ≤ (dirInit dir s prox t).2.2 ∧ (dirInit dir s prox t).2.2 ≤ t + 2 := by
+  unfold dirInit; simp only []; split_ifs <;> dsimp only <;> omega
+
+theorem trustRegionStep_tick (co : Consts α) (dir : Direction D α) (d : D) (t : Nat) (prox : Iterate α)
+    (Delta : α) (q : Vec α) :
+    t + 1 ≤ (trustRegionStep co dir d t prox Delta q).2.1 ∧
+    (trustRegionStep co dir d t prox Delta q).2.1 ≤ t + 2 := by
+  unfold trustRegionStep; simp only []; split_ifs <;> dsimp only <;> omega
+
+theorem candidateFbe_tick (P : Problem α) (pr : Params α) (prox cand : Iterate α) (q : Vec α) (t : Nat) :
+    t + 2 ≤ (candidateFbe P pr prox cand q t).2.1 ∧
+    (candidateFbe P pr prox cand q t).2.1 ≤ t + 3 + 2 * (candidateFbe P pr prox cand q t).2.2.1 := by
+  unfold candidateFbe
+  simp only []
+  split_ifs
+  · generalize evalPsiHat P _ = c0
+    have := backtrackQub_tick P pr pr.qubFuel c0 (t + 3) 0
+    omega
+  · dsimp only; omega
+
+theorem trStage_tick (co : Consts α) (P : Problem α) (dir : Direction D α) (pr : Params α) (s : St α D) :
+    s.tick + 2 ≤ (trStage co P dir pr s).tick ∧
+    (trStage co P dir pr s).tick ≤ s.tick + 10 + 2 * (trStage co P dir pr s).backtracks := by
+  have h1 := fbsStep_tick P pr s
+  have h2 := dirInit_tick dir s (fbsStep P pr s).1 (fbsStep P pr s).2.2
+  unfold trStage
+  simp only []
+  split_ifs
+  · unfold trAttempt
+    simp only []
+    generalize htr : trustRegionStep co dir _ _ _ _ _ = tr
+    have h3 := trustRegionStep_tick co dir (dirInit dir s (fbsStep P pr s).1 (fbsStep P pr s).2.2).1
+      (dirInit dir s (fbsStep P pr s).1 (fbsStep P pr s).2.2).2.2 (fbsStep P pr s).1 s.Delta s.q
+    rw [htr] at h3
+    split_ifs
+    · have h4 := candidateFbe_tick P pr (fbsStep P pr s).1 s.cand tr.2.2.1 tr.2.1
+      simp only []
+      omega
+    · simp only []; omega
+  · simp only []; omega
+
+theorem acceptStage_tick (P : Problem α) (dir : Direction D α) (pr : Params α) (m : Mid α D) (t0 : Nat) :
+    t0 + 1 ≤ (acceptStage P dir pr m t0).tick ∧
+    (acceptStage P dir pr m t0).tick ≤ t0 + 4 + 2 * (acceptStage P dir pr m t0).backtracks := by
+  unfold acceptStage
+  simp only []
+  by_cases hc : pr.computeRatioUsingNewStepsize
+  · simp only [hc, Bool.not_true, Bool.false_eq_true, if_false]
+    split_ifs <;> dsimp only <;> omega
+  · simp only [hc, Bool.not_false, if_true]
+    have := backtrackQub_tick P pr pr.qubFuel (evalPsiHat P m.cand) (t0 + 1) 0
+    split_ifs <;> dsimp only <;> omega
+
+theorem rejectStage_tick (P : Problem α) (dir : Direction D α) (pr : Params α) (m : Mid α D) (t0 : Nat) :
+    t0 + 1 ≤ (rejectStage P dir pr m t0).tick ∧
+    (rejectStage P dir pr m t0).tick ≤ t0 + 4 + 2 * (rejectStage P dir pr m t0).backtracks := by
+  unfold rejectStage
+  simp only []
+  have := backtrackQub_tick P pr pr.qubFuel (evalPsiHat P m.prox) (t0 + 1) 0
+  split_ifs <;> dsimp only <;> omega
+
+/-- **Work of one iteration**, in events (problem evaluations by the solver, direction calls, the
+    callback): at least 4, at most `15 + 2·(step-size backtracks of this iteration)`. -/
+theorem iterBody_tick (co : Consts α) (P : Problem α) (dir : Direction D α) (pr : Params α)
+    (s : St α D) (eps : α) :
+    s.tick + 4 ≤ (iterBody co P dir pr s eps).tick ∧
+    (iterBody co P dir pr s eps).tick + 2 * s.stats.stepsizeBacktracks
+      ≤ s.tick + 15 + 2 * (iterBody co P dir pr s eps).stats.stepsizeBacktracks := by
+  have h1 := trStage_tick co P dir pr s
+  have h2 := acceptStage_tick P dir pr (trStage co P dir pr s) ((trStage co P dir pr s).tick + 1)
+  have h3 := rejectStage_tick P dir pr (trStage co P dir pr s) ((trStage co P dir pr s).tick + 1)
+  unfold iterBody
+  simp only []
+  split_ifs <;> omega
 
 end Alpaqa.Pantr
